@@ -70,7 +70,7 @@ def run(ctx, rep):
     rep.rule("R03.2", "label production (_box) and consumption (_unbox) agree on all four labels; unknown labels raise")
     rep.rule("R03.3", "a reference handed back is the original: LOCAL_REF only for proxies of this connection, resolved by a plain table lookup")
     rep.rule("R03.4", "one live proxy per remote object: every returned proxy came from, or was stored in, the proxy cache under one key")
-    rep.rule("R03.5", "a reference is only sent for an object the owner holds (= R10.1)")
+    rep.rule("R03.5", "a reference is only sent for an object the owner holds, and the owner keeps it while a proxy lives (= R10.1-R10.4)")
     rep.rule("R03.6", "the identity function is total on its anchors: no unbound name in get_id_pack/_box/_unbox/_netref_factory")
     rep.rule("R03.7", "copy transfer goes through pickle on the owner (obtain / deliver / __reduce_ex__)")
     rep.assume("equality of copied values is C04/C05's business; behaviour of pickle is trusted")
@@ -239,7 +239,7 @@ def run(ctx, rep):
                if okall else "; ".join(why) or "the proxy does not come from the cache", ctx.loc(n))
 
     # ------------------------------------------------------------------ R03.5
-    K.share(ctx, rep, "c10", lambda o: o.rule == "R10.1", "R03.5", floor=3)
+    K.share(ctx, rep, "c10", lambda o: o.rule in ("R10.1", "R10.2", "R10.3", "R10.4"), "R03.5", floor=10)
 
     # ------------------------------------------------------------------ R03.6
     for q in ("rpyc.lib.get_id_pack", K.CONN + "._box", K.CONN + "._unbox", K.CONN + "._netref_factory",
